@@ -434,6 +434,54 @@ impl<'s> Semantics<'s> {
         Ok(())
     }
 
+    /// Finishes a shift or rotate instruction. `head_index` is the block holding the operand
+    /// loads. The flag assignments go to a block of their own that is entered only when the
+    /// (masked) `count` is not zero, as the processor leaves every flag unchanged for a zero
+    /// count; the result is stored in the tail block in both cases.
+    #[allow(clippy::too_many_arguments)]
+    fn shift_epilogue(
+        &self,
+        control_flow_graph: &mut ControlFlowGraph,
+        head_index: usize,
+        count: Expression,
+        flags: Vec<(Scalar, Expression)>,
+        zf_sf_from_result: bool,
+        destination: &cs_x86_op,
+        result: Expression,
+    ) -> Result<(), Error> {
+        let flags_index = {
+            let block = control_flow_graph.new_block()?;
+            for (flag, value) in flags {
+                block.assign(flag, value);
+            }
+            if zf_sf_from_result {
+                self.set_zf(block, result.clone())?;
+                self.set_sf(block, result.clone())?;
+            }
+            block.index()
+        };
+
+        let tail_index = {
+            let block = control_flow_graph.new_block()?;
+            self.operand_store(block, destination, result)?;
+            block.index()
+        };
+
+        let zero = expr_const(0, count.bits());
+        control_flow_graph.conditional_edge(
+            head_index,
+            flags_index,
+            Expr::cmpneq(count.clone(), zero.clone())?,
+        )?;
+        control_flow_graph.conditional_edge(head_index, tail_index, Expr::cmpeq(count, zero)?)?;
+        control_flow_graph.unconditional_edge(flags_index, tail_index)?;
+
+        control_flow_graph.set_entry(head_index)?;
+        control_flow_graph.set_exit(tail_index)?;
+
+        Ok(())
+    }
+
     pub fn adc(&self, control_flow_graph: &mut ControlFlowGraph) -> Result<(), Error> {
         let detail = self.details()?;
 
@@ -3347,12 +3395,22 @@ impl<'s> Semantics<'s> {
     pub fn rol(&self, control_flow_graph: &mut ControlFlowGraph) -> Result<(), Error> {
         let detail = self.details()?;
 
-        let block_index = {
+        // flag effects, applied only when the masked count is not zero (see shift_epilogue)
+        let mut flags: Vec<(Scalar, Expression)> = Vec::new();
+
+        let (block_index, count, result) = {
             let block = control_flow_graph.new_block()?;
+
+            // This nop allows us to find this instruction in traces, even when
+            // the operands are registers and the head block would be empty.
+            block.nop();
 
             // get operands
             let lhs = self.operand_load(block, &detail.operands[0])?;
             let count = self.operand_load(block, &detail.operands[1])?;
+            // flags change only if the count masked to 5 bits (6 for 64-bit operands) is not zero
+            let flag_count_mask = if lhs.bits() == 64 { 0x3f } else { 0x1f };
+            let flag_count = Expr::and(count.clone(), expr_const(flag_count_mask, count.bits()))?;
 
             let mut count = match lhs.bits() {
                 8 => Expr::and(count.clone(), expr_const(0x7, count.bits()))?,
@@ -3383,10 +3441,10 @@ impl<'s> Semantics<'s> {
             )?;
 
             // CF is the bit sent from one end to the other. In our case, it should be LSB of result
-            block.assign(scalar("CF", 1), Expr::trun(1, result.clone())?);
+            flags.push((scalar("CF", 1), Expr::trun(1, result.clone())?));
 
             // OF (1-bit rotate) is the XOR of the most-significant bit of the result and CF
-            block.assign(
+            flags.push((
                 scalar("OF", 1),
                 Expr::xor(
                     Expr::trun(
@@ -3398,17 +3456,22 @@ impl<'s> Semantics<'s> {
                     )?,
                     Expr::trun(1, result.clone())?,
                 )?,
-            );
+            ));
 
             // SF/ZF are unaffected
 
-            self.operand_store(block, &detail.operands[0], result)?;
-
-            block.index()
+            (block.index(), flag_count, result)
         };
 
-        control_flow_graph.set_entry(block_index)?;
-        control_flow_graph.set_exit(block_index)?;
+        self.shift_epilogue(
+            control_flow_graph,
+            block_index,
+            count,
+            flags,
+            false,
+            &detail.operands[0],
+            result,
+        )?;
 
         Ok(())
     }
@@ -3416,12 +3479,22 @@ impl<'s> Semantics<'s> {
     pub fn ror(&self, control_flow_graph: &mut ControlFlowGraph) -> Result<(), Error> {
         let detail = self.details()?;
 
-        let block_index = {
+        // flag effects, applied only when the masked count is not zero (see shift_epilogue)
+        let mut flags: Vec<(Scalar, Expression)> = Vec::new();
+
+        let (block_index, count, result) = {
             let block = control_flow_graph.new_block()?;
+
+            // This nop allows us to find this instruction in traces, even when
+            // the operands are registers and the head block would be empty.
+            block.nop();
 
             // get operands
             let lhs = self.operand_load(block, &detail.operands[0])?;
             let count = self.operand_load(block, &detail.operands[1])?;
+            // flags change only if the count masked to 5 bits (6 for 64-bit operands) is not zero
+            let flag_count_mask = if lhs.bits() == 64 { 0x3f } else { 0x1f };
+            let flag_count = Expr::and(count.clone(), expr_const(flag_count_mask, count.bits()))?;
 
             let mut count = match lhs.bits() {
                 8 => Expr::and(count.clone(), expr_const(0x7, count.bits()))?,
@@ -3452,7 +3525,7 @@ impl<'s> Semantics<'s> {
             )?;
 
             // CF is the bit sent from one end to the other. In our case, it should be MSB of result
-            block.assign(
+            flags.push((
                 scalar("CF", 1),
                 Expr::trun(
                     1,
@@ -3461,10 +3534,10 @@ impl<'s> Semantics<'s> {
                         expr_const(result.bits() as u64 - 1, result.bits()),
                     )?,
                 )?,
-            );
+            ));
 
             // OF is XOR of two most-significant bits of result
-            block.assign(
+            flags.push((
                 scalar("OF", 1),
                 Expr::xor(
                     Expr::trun(
@@ -3482,18 +3555,23 @@ impl<'s> Semantics<'s> {
                         )?,
                     )?,
                 )?,
-            );
+            ));
 
             // SF/ZF are unaffected
 
             // store result
-            self.operand_store(block, &detail.operands[0], result)?;
-
-            block.index()
+            (block.index(), flag_count, result)
         };
 
-        control_flow_graph.set_entry(block_index)?;
-        control_flow_graph.set_exit(block_index)?;
+        self.shift_epilogue(
+            control_flow_graph,
+            block_index,
+            count,
+            flags,
+            false,
+            &detail.operands[0],
+            result,
+        )?;
 
         Ok(())
     }
@@ -3528,8 +3606,15 @@ impl<'s> Semantics<'s> {
     pub fn sar(&self, control_flow_graph: &mut ControlFlowGraph) -> Result<(), Error> {
         let detail = self.details()?;
 
-        let block_index = {
+        // flag effects, applied only when the masked count is not zero (see shift_epilogue)
+        let mut flags: Vec<(Scalar, Expression)> = Vec::new();
+
+        let (block_index, count, result) = {
             let block = control_flow_graph.new_block()?;
+
+            // This nop allows us to find this instruction in traces, even when
+            // the operands are registers and the head block would be empty.
+            block.nop();
 
             // get operands
             let lhs = self.operand_load(block, &detail.operands[0])?;
@@ -3559,21 +3644,23 @@ impl<'s> Semantics<'s> {
             let cf = Expr::ashr(lhs, Expr::sub(rhs.clone(), expr_const(1, rhs.bits()))?)?;
             // Apply mask
             let cf = Expr::trun(1, Expr::and(cf, non_zero_mask)?)?;
-            block.assign(scalar("CF", 1), cf);
+            flags.push((scalar("CF", 1), cf));
 
             // OF is the last bit shifted out
-            block.assign(scalar("OF", 1), expr_const(0, 1));
+            flags.push((scalar("OF", 1), expr_const(0, 1)));
 
-            self.set_zf(block, expr.clone())?;
-            self.set_sf(block, expr.clone())?;
-
-            self.operand_store(block, &detail.operands[0], expr)?;
-
-            block.index()
+            (block.index(), rhs, expr)
         };
 
-        control_flow_graph.set_entry(block_index)?;
-        control_flow_graph.set_exit(block_index)?;
+        self.shift_epilogue(
+            control_flow_graph,
+            block_index,
+            count,
+            flags,
+            true,
+            &detail.operands[0],
+            result,
+        )?;
 
         Ok(())
     }
@@ -3779,8 +3866,15 @@ impl<'s> Semantics<'s> {
     pub fn shl(&self, control_flow_graph: &mut ControlFlowGraph) -> Result<(), Error> {
         let detail = self.details()?;
 
-        let block_index = {
+        // flag effects, applied only when the masked count is not zero (see shift_epilogue)
+        let mut flags: Vec<(Scalar, Expression)> = Vec::new();
+
+        let (block_index, count, result) = {
             let block = control_flow_graph.new_block()?;
+
+            // This nop allows us to find this instruction in traces, even when
+            // the operands are registers and the head block would be empty.
+            block.nop();
 
             // get operands
             let lhs = self.operand_load(block, &detail.operands[0])?;
@@ -3810,7 +3904,7 @@ impl<'s> Semantics<'s> {
             // Extract MSB (shift right by bits-1), then apply non-zero mask
             let cf = Expr::shr(cf.clone(), expr_const(cf.bits() as u64 - 1, cf.bits()))?;
             let cf = Expr::trun(1, Expr::and(cf, non_zero_mask)?)?;
-            block.assign(scalar("CF", 1), cf.clone());
+            flags.push((scalar("CF", 1), cf.clone()));
 
             // OF (count==1): OF = MSB(result) XOR CF
             let of = Expr::xor(
@@ -3823,18 +3917,20 @@ impl<'s> Semantics<'s> {
                     )?,
                 )?,
             )?;
-            block.assign(scalar("OF", 1), of);
+            flags.push((scalar("OF", 1), of));
 
-            self.set_zf(block, expr.clone())?;
-            self.set_sf(block, expr.clone())?;
-
-            self.operand_store(block, &detail.operands[0], expr)?;
-
-            block.index()
+            (block.index(), rhs, expr)
         };
 
-        control_flow_graph.set_entry(block_index)?;
-        control_flow_graph.set_exit(block_index)?;
+        self.shift_epilogue(
+            control_flow_graph,
+            block_index,
+            count,
+            flags,
+            true,
+            &detail.operands[0],
+            result,
+        )?;
 
         Ok(())
     }
@@ -3842,8 +3938,15 @@ impl<'s> Semantics<'s> {
     pub fn shr(&self, control_flow_graph: &mut ControlFlowGraph) -> Result<(), Error> {
         let detail = self.details()?;
 
-        let block_index = {
+        // flag effects, applied only when the masked count is not zero (see shift_epilogue)
+        let mut flags: Vec<(Scalar, Expression)> = Vec::new();
+
+        let (block_index, count, result) = {
             let block = control_flow_graph.new_block()?;
+
+            // This nop allows us to find this instruction in traces, even when
+            // the operands are registers and the head block would be empty.
+            block.nop();
 
             // get operands
             let lhs = self.operand_load(block, &detail.operands[0])?;
@@ -3875,27 +3978,29 @@ impl<'s> Semantics<'s> {
             )?;
             // Apply mask
             let cf = Expr::trun(1, Expr::and(cf, non_zero_mask)?)?;
-            block.assign(scalar("CF", 1), cf);
+            flags.push((scalar("CF", 1), cf));
 
             // OF set to most significant bit of the original operand
-            block.assign(
+            flags.push((
                 scalar("OF", 1),
                 Expr::trun(
                     1,
                     Expr::shr(lhs.clone(), expr_const(lhs.bits() as u64 - 1, lhs.bits()))?,
                 )?,
-            );
+            ));
 
-            self.set_zf(block, expr.clone())?;
-            self.set_sf(block, expr.clone())?;
-
-            self.operand_store(block, &detail.operands[0], expr)?;
-
-            block.index()
+            (block.index(), rhs, expr)
         };
 
-        control_flow_graph.set_entry(block_index)?;
-        control_flow_graph.set_exit(block_index)?;
+        self.shift_epilogue(
+            control_flow_graph,
+            block_index,
+            count,
+            flags,
+            true,
+            &detail.operands[0],
+            result,
+        )?;
 
         Ok(())
     }
@@ -3903,8 +4008,15 @@ impl<'s> Semantics<'s> {
     pub fn shld(&self, control_flow_graph: &mut ControlFlowGraph) -> Result<(), Error> {
         let detail = self.details()?;
 
-        let block_index = {
+        // flag effects, applied only when the masked count is not zero (see shift_epilogue)
+        let mut flags: Vec<(Scalar, Expression)> = Vec::new();
+
+        let (block_index, count, result) = {
             let block = control_flow_graph.new_block()?;
+
+            // This nop allows us to find this instruction in traces, even when
+            // the operands are registers and the head block would be empty.
+            block.nop();
 
             // get operands
             let dst = self.operand_load(block, &detail.operands[0])?;
@@ -3943,28 +4055,30 @@ impl<'s> Semantics<'s> {
                 )?,
             )?;
 
-            block.assign(scalar("CF", 1), cf);
+            flags.push((scalar("CF", 1), cf));
 
             // OF: set if the sign changed (defined for 1-bit shifts, undefined otherwise)
             let sign_change = Expr::xor(dst.clone(), result.clone())?;
-            block.assign(
+            flags.push((
                 scalar("OF", 1),
                 Expr::trun(
                     1,
                     Expr::shr(sign_change, expr_const(bits as u64 - 1, bits))?,
                 )?,
-            );
+            ));
 
-            self.set_zf(block, result.clone())?;
-            self.set_sf(block, result.clone())?;
-
-            self.operand_store(block, &detail.operands[0], result)?;
-
-            block.index()
+            (block.index(), count, result)
         };
 
-        control_flow_graph.set_entry(block_index)?;
-        control_flow_graph.set_exit(block_index)?;
+        self.shift_epilogue(
+            control_flow_graph,
+            block_index,
+            count,
+            flags,
+            true,
+            &detail.operands[0],
+            result,
+        )?;
 
         Ok(())
     }
@@ -3972,8 +4086,15 @@ impl<'s> Semantics<'s> {
     pub fn shrd(&self, control_flow_graph: &mut ControlFlowGraph) -> Result<(), Error> {
         let detail = self.details()?;
 
-        let block_index = {
+        // flag effects, applied only when the masked count is not zero (see shift_epilogue)
+        let mut flags: Vec<(Scalar, Expression)> = Vec::new();
+
+        let (block_index, count, result) = {
             let block = control_flow_graph.new_block()?;
+
+            // This nop allows us to find this instruction in traces, even when
+            // the operands are registers and the head block would be empty.
+            block.nop();
 
             // get operands
             let dst = self.operand_load(block, &detail.operands[0])?;
@@ -4008,28 +4129,30 @@ impl<'s> Semantics<'s> {
                 )?,
             )?;
 
-            block.assign(scalar("CF", 1), cf);
+            flags.push((scalar("CF", 1), cf));
 
             // OF: set if the sign changed (defined for 1-bit shifts, undefined otherwise)
             let sign_change = Expr::xor(dst.clone(), result.clone())?;
-            block.assign(
+            flags.push((
                 scalar("OF", 1),
                 Expr::trun(
                     1,
                     Expr::shr(sign_change, expr_const(bits as u64 - 1, bits))?,
                 )?,
-            );
+            ));
 
-            self.set_zf(block, result.clone())?;
-            self.set_sf(block, result.clone())?;
-
-            self.operand_store(block, &detail.operands[0], result)?;
-
-            block.index()
+            (block.index(), count, result)
         };
 
-        control_flow_graph.set_entry(block_index)?;
-        control_flow_graph.set_exit(block_index)?;
+        self.shift_epilogue(
+            control_flow_graph,
+            block_index,
+            count,
+            flags,
+            true,
+            &detail.operands[0],
+            result,
+        )?;
 
         Ok(())
     }
